@@ -45,6 +45,9 @@ CHECKS = {
     "C06": dict(level="exploration", technique="runtime monitoring: error-injection probes over the tree's own signature table (every overload x position) and construction forms; limit sweep over wrapped computations with a model-free outcome oracle",
                 text="held on the executions observed: (A) for every standard-library overload and argument position (pairs of positions in the thorough tier) an injected error is the result - the leftmost one - except at documented short-circuit / inspection positions; user functions, lambdas, callables, struct/union/tuple/array construction, collection insertion, f-strings likewise; no materialised collection contains an error. (B) a computation that trips a call / depth / search / recursion / size / permission / output limit, wrapped in 30 error-handling and higher-order forms, ends in that violation or in exactly the unlimited result for every placed limit value",
                 note="positions exempted are exactly those the book documents; a foreign error is only accepted when the same call without injection yields it too"),
+    "C12": dict(level="exploration", technique="runtime monitoring: panic hook + watchdog around feed_file, recording doubles / hook counters before a runtime exists, self-consistency oracle across repetitions, processes, compilation histories and limit configurations",
+                text="held on the executions observed: token soups over the grammar's alphabet, mutations and splices of the 420 shipped scripts and the book's code fences, every numeric-literal / identifier / string-literal edge spelling, bracket and type nesting to 64 (100 in the thorough tier) and generated core programs were each compiled four times (twice in each of two processes, with different compilations before them and different limits): no panic, no non-termination, no touch of writer / clock / rng and no evaluation event before a runtime existed, identical acceptance and identical error text; accepted programs behave identically when executed twice",
+                note="termination is judged by a 15 s watchdog plus a 45 s solo re-run; texts up to 6 kB"),
 }
 REASON_PENDING = "check under construction in this round (not yet claimed)"
 
